@@ -34,7 +34,7 @@ m("C09", "worker-cache", OM,
   "    def getSequence(self, sequenceGenerator: SequenceGenerator, reverseStrand=False, start: int = 0, end: int = None):\n        sequence = sequenceGenerator.positionsToSequence(self.positions, start, end)\n",
   "    def getSequence(self, sequenceGenerator: SequenceGenerator, reverseStrand=False, start: int = 0, end: int = None):\n        key = (self.moleculeId, sequenceGenerator.resolution, start, end)\n        if key not in _SEQUENCE_CACHE:\n            _SEQUENCE_CACHE[key] = sequenceGenerator.positionsToSequence(self.positions, start, end)\n        sequence = _SEQUENCE_CACHE[key]\n",
   "module-level memo keyed by molecule id: a second-pass fragment reuses the whole query's vector if the same worker saw it")
-m("C09", "header-before-execute", "src/program.py",
+m("C07", "header-before-execute", "src/program.py",
   "        alignmentResultRows = self.workflowCoordinator.execute(self.referenceMaps, self.queryMaps)\n",
   "        self.args.outputFile.write(\"# COMA run\\n\")\n        self.args.outputFile.flush()\n        alignmentResultRows = self.workflowCoordinator.execute(self.referenceMaps, self.queryMaps)\n",
   "writes to the -o handle before the pool runs: workers re-open the path with mode w and destroy it")
@@ -59,10 +59,6 @@ m("C10", "qid-filter-first-only", CR,
 m("C05", "best-not-reversed", WC,
   "sorted(alignmentResultRows, key=lambda a: a.confidence, reverse=True)", "sorted(alignmentResultRows, key=lambda a: a.confidence)",
   "worst candidate chosen")
-m("C05", "filter-keeps-last", AR,
-  "[next(group) for _, group in itertools.groupby(rowsSortedByQueryIdThenByConfidence, lambda r: r.queryId)]",
-  "[list(group)[-1] for _, group in itertools.groupby(rowsSortedByQueryIdThenByConfidence, lambda r: r.queryId)]",
-  "keeps the lowest-confidence row per query (visible in best mode)")
 m("C05", "best-no-joined-exclusion", MP,
   "bestRows = [row for row in filteredFirstPassRows if row.queryId not in joinedIds]",
   "bestRows = [row for row in filteredFirstPassRows if row.queryId not in joinedIds[:-1]]",
@@ -94,14 +90,6 @@ m("C08", "join-other-strand", AR,
   "        if self.orientation == alignedRest.orientation and self.referenceId == alignedRest.referenceId:",
   "        if self.referenceId == alignedRest.referenceId:", "joins records of opposite strands")
 # ---- C01 / C04
-m("C01", "dedup-query-only", AP,
-  "        return AlignedPair.__deduplicateByKey(\n            AlignedPair.__deduplicateByKey(pairs, AlignedPair.querySiteIdSelector),\n            AlignedPair.referenceSiteIdSelector)",
-  "        return AlignedPair.__deduplicateByKey(pairs, AlignedPair.querySiteIdSelector)",
-  "a reference label can be paired with two query labels")
-m("C04", "sub-keeps-score", SG,
-  "        positions = [p for p in self.positions if p not in otherPositions]\n        return AlignmentSegment.create(positions, self.peak, self.allPeakPositions)",
-  "        positions = [p for p in self.positions if p not in otherPositions]\n        return AlignmentSegment(positions, self.segmentScore, self.peak, self.allPeakPositions) if positions else AlignmentSegment.create(positions, self.peak, self.allPeakPositions)",
-  "trimmed segments keep their old score")
 m("C04", "penalty-cap", AP,
   "        score = perfectMatchScore - distancePenaltyMultiplier * self.distance",
   "        score = perfectMatchScore - distancePenaltyMultiplier * min(self.distance, 1000)",
@@ -109,10 +97,13 @@ m("C04", "penalty-cap", AP,
 m("C04", "hardcoded-unmatched", "src/workflow_coordinator_factory.py",
   "            self.args.unmatchedPenalty)", "            min(self.args.unmatchedPenalty, -100))",
   "-su 0 is silently replaced by -100")
-m("C01", "slice-strict", AP,
-  "        return self.query < other.query or self.reference < other.reference \\\n               or self.query == other.query or self.reference == other.reference",
-  "        return self.query < other.query or self.reference < other.reference",
-  "lessOrEqualOnAnySequence made strict")
+m("C01", "skip-last-junction", "src/alignment/segment_with_resolved_conflicts.py",
+  "        for (i0, i1) in self.__pairIndexes(len(chainedSegments)):",
+  "        for (i0, i1) in self.__pairIndexes(len(chainedSegments) - (1 if len(chainedSegments) > 3 else 0)):",
+  "with more than three chain members the last junction is never resolved")
+m("C04", "confidence-first-five", AR,
+  "        confidence = sum(s.segmentScore for s in segments)", "        confidence = sum(s.segmentScore for s in segments[:5])",
+  "rows with more than five segments under-report their confidence")
 # ---- C02
 m("C02", "no-swap-reverse", AR,
   "        queryStartPosition = (firstPair if not reverseStrand else lastPair).query.position\n        queryEndPosition = (lastPair if not reverseStrand else firstPair).query.position",
@@ -130,15 +121,10 @@ m("C02", "untrimmed-length", "src/program.py",
   "map(lambda q: q.trim() if q.positions[0] < 30000 else OpticalMapShim(q), cmapReader.readQueries(self.args.queryFile, self.args.queryIds)))",
   "queries whose first label lies beyond 30 kb keep their declared length")
 # ---- C03
-m("C03", "insertion-off-by-one", AR,
-  "                for _ in range(1, queryIncrement):", "                for _ in range(1, queryIncrement if queryIncrement < 4 else queryIncrement - 1):",
-  "runs of 3+ insertions lose one I")
 m("C03", "single-pair-empty", AR,
   "                count = 1\n        yield AlignmentResultRow.__hitToString(count, previousHit)\n", "                count = 1\n        if hit:\n            yield AlignmentResultRow.__hitToString(count, hit)\n",
   "re-introduces the empty HitEnum of one-pair records")
 # ---- C06 / C11
-m("C06", "bin-centre-zero", OM, "    resolutionAdjustment = ceil(resolution / 2) - 1", "    resolutionAdjustment = 0 if resolution < 200 else ceil(resolution / 2) - 1",
-  "secondary peaks placed at the bin edge instead of the centre (50 bp shift)")
 m("C06", "reverse-sequence-not-reversed", OM, "        return sequence[::-1] if reverseStrand else sequence",
   "        return sequence[::-1] if reverseStrand and len(self.positions) != 23 else sequence", "23-label queries are not reversed")
 m("C11", "reverse-siteids", OM, "            i = len(self.positions) + self.shift\n            moleculeEndPosition = self.length - 1",
